@@ -196,3 +196,24 @@ pub fn collect_restored(result: &crate::decoder_result::DecoderResult) -> (r: st
 { unimplemented!() }
 pub assume_specification<T> [<[T] as std::convert::AsRef<[T]>>::as_ref] (s: &[T]) -> (r: &[T])
     ensures r@ == s@;
+
+// Vec<T> -> Box<[T]> keeps the elements
+pub assume_specification<T, A: std::alloc::Allocator> [std::vec::Vec::<T, A>::into_boxed_slice] (v: std::vec::Vec<T, A>) -> (r: std::boxed::Box<[T], A>)
+    ensures r@ == v@;
+pub assume_specification<T, const N: usize> [<Box<[T; N]> as TryFrom<Box<[T]>>>::try_from] (b: Box<[T]>) -> (r: Result<Box<[T; N]>, <Box<[T; N]> as TryFrom<Box<[T]>>>::Error>)
+    ensures b@.len() == N ==> (r is Ok && r->Ok_0@ == b@), b@.len() != N ==> r is Err;
+// byte n (little endian) of a 128-bit value
+pub open spec fn byte_of(v: u128, n: int) -> u8 { ((v >> ((8 * n) as u128)) & 0xff) as u8 }
+// R18 stub for u128::from_le_bytes (ASSUMED, = assume_specification)
+#[verifier::external_body]
+pub fn u128_from_le_bytes(b: [u8; 16]) -> (r: u128)
+    ensures forall|n: int| 0 <= n < 16 ==> #[trigger] byte_of(r, n) == b@[n]
+{ u128::from_le_bytes(b) }
+// R19 stub (ASSUMED, = slice::copy_from_slice through the Box's auto-deref): the array takes the slice's elements
+#[verifier::external_body]
+pub fn box_array_copy_from_slice<T: Copy, const N: usize>(b: &mut Box<[T; N]>, src: &[T])
+    requires src@.len() == N
+    ensures final(b)@ == src@
+{ b.copy_from_slice(src) }
+pub assume_specification<T, const N: usize> [<[T; N] as std::convert::AsRef<[T]>>::as_ref] (a: &[T; N]) -> (r: &[T])
+    ensures r@ == a@;
